@@ -139,8 +139,8 @@ Judge(o, obs) ==
   ELSE IF ~ClauseD(o, obs) THEN "d result type / encoding / BOM"
   ELSE IF ~ClauseB(o, obs) THEN "b non-ASCII without allow_unicode"
   ELSE IF ~ClauseC(o, obs) THEN "c line break"
+  ELSE IF ~ClauseA(obs) THEN "a reader rejects the output"            \* before e and f: their observations come from re-scanning
   ELSE IF ~ClauseE(o, obs) THEN "e document markers / directives"
   ELSE IF ~ClauseF(o, obs) THEN "f indentation of block entries"
-  ELSE IF ~ClauseA(obs) THEN "a reader rejects the output"
   ELSE "-"
 =============================================================================
